@@ -12,6 +12,7 @@
      reproducibility (validated over seeds, not proved).
 """
 import itertools
+import random
 import warnings
 from fractions import Fraction as F
 
@@ -491,119 +492,132 @@ def same_bqm(a, b):
     return (a.vartype is b.vartype and list(a.variables) == list(b.variables) and coef(a) == coef(b))
 
 
+# legal seed values that look "falsy" or sit at the ends of the range: a seeded call must be reproducible for each of them
+SPECIAL_SEEDS = ['0', 'np.int64(0)', 'np.uint32(0)', '1', '2**32 - 1', 'np.int64(0)', '0']
+
+
 def random_cases(ctx, r):
     nseeds = ctx.scale(25, 1000)
+    first_zero = {}                                 # generator -> model drawn with the first seed that equals 0
+    spec_base = r.randrange(2 ** 31)
     for i in range(nseeds):
-        seed = r.randrange(2 ** 31)
-        n = r.randint(0, 6)
-        nodes = list(range(n)) if r.random() < .5 else r.sample(['a', 'b', 'c', 'd', 'e', 'f', 0, 1, 2], n)
-        edges = [e for e in itertools.combinations(nodes, 2) if r.random() < .5]
-        graph = r.choice([n if nodes == list(range(n)) else (nodes, edges), (nodes, edges), (nodes, edges)])
+        special = i < len(SPECIAL_SEEDS)
+        # the special seeds all get the same graph and parameters, so that equal seed values can be compared
+        q = random.Random(spec_base) if special else r
+        seed_src = SPECIAL_SEEDS[i] if special else repr(r.randrange(2 ** 31))
+        seed = eval(seed_src, {'np': np})
+        zero = int(seed) == 0
+        n = 7 if special else q.randint(0, 6)
+        nodes = list(range(n)) if q.random() < .5 else q.sample(['a', 'b', 'c', 'd', 'e', 'f', 0, 1, 2], n)
+        # falsy / extreme seeds: a complete graph, so that two unseeded draws cannot coincide by chance
+        edges = [e for e in itertools.combinations(nodes, 2) if special or q.random() < .5]
+        graph = q.choice([n if nodes == list(range(n)) else (nodes, edges), (nodes, edges), (nodes, edges)])
         gn, ge = (list(range(graph)), list(itertools.combinations(range(graph), 2))) if isinstance(graph, int) else graph
-        vt = r.choice(['SPIN', 'BINARY'])
+        vt = q.choice(['SPIN', 'BINARY'])
+        env = {'G': G, 'np': np, 'graph': graph, 'vt': vt, 'seed': seed, 'nodes': nodes}
+        pre = HDR + f'graph, vt, nodes, seed = {graph!r}, {vt!r}, {nodes!r}, {seed_src}\n'
+        repro_cls = 'seed reproducibility' + (' (seed 0)' if zero else '')
 
-        def on_graph(b, site, cls):
-            got_e = {frozenset((u, v)) for u, v, _ in b.iter_quadratic()}
-            if list(b.variables) != list(gn) or got_e != {frozenset(e) for e in ge}:
-                ctx.fail('property', site, cls, f'seed {seed} graph {graph!r}: variables {list(b.variables)!r} interactions {sorted(map(sorted, got_e), key=repr)!r}',
-                         repro=HDR + f'b = {site.replace("generators.", "G.")}  # graph {graph!r} seed {seed}\nassert False\n')
-                return False
-            return True
-
-        def check(name, mk, inrange, offset_rule, linear_rule=None):
+        def draw_twice(name, call, same, key_extra=()):
+            """two calls with the same seed must return the same model; returns the first"""
             site = f'generators.{name}'
             with warnings.catch_warnings():
                 warnings.simplefilter('ignore')
-                a = mk(); b2 = mk()
-            ctx.tick('random:' + name); ctx.case(('random', name, seed, repr(graph)), nontrivial=bool(ge))
-            repro = HDR + f'# {name} on graph {graph!r}, seed {seed}\nassert False\n'
-            if not same_bqm(a, b2):
-                ctx.fail('property', site, 'seed reproducibility', f'seed {seed}: two calls differ', repro=repro)
-            if not on_graph(a, site, 'declared graph'):
+                a = eval(call, dict(env)); b2 = eval(call, dict(env))
+            ctx.tick('random:' + name + (':seed0' if zero else '')); ctx.case(('random', name, seed_src, repr(graph)) + key_extra, nontrivial=bool(ge) or name not in ('uniform', 'randint', 'ran_r', 'power_r', 'doped'))
+            eq = 'a.is_equal(b)' if isinstance(a, dimod.ConstrainedQuadraticModel) else '(a.vartype is b.vartype and list(a.variables) == list(b.variables) and a == b)'
+            repro = pre + f'a = {call}\nb = {call}\nassert {eq}, "two calls with seed {seed_src} differ"\n'
+            if not same(a, b2):
+                ctx.fail('property', site, repro_cls, f'{call} with graph {graph!r}, seed = {seed_src}: two calls return different models', repro=repro)
+            elif zero:
+                # the same seed value spelled as another integer type
+                k = (name, call, repr(graph), vt)
+                if k in first_zero and not same(first_zero[k][0], a):
+                    ctx.fail('property', site, repro_cls, f'{call} with graph {graph!r}: seed {first_zero[k][1]} and seed {seed_src} give different models', repro=repro)
+                first_zero.setdefault(k, (a, seed_src))
+            return a, repro
+
+        def on_graph(b, site, cls, repro):
+            got_e = {frozenset((u, v)) for u, v, _ in b.iter_quadratic()}
+            if list(b.variables) != list(gn) or got_e != {frozenset(e) for e in ge}:
+                ctx.fail('property', site, cls, f'seed {seed_src} graph {graph!r}: variables {list(b.variables)!r} interactions {sorted(map(sorted, got_e), key=repr)!r}', repro=repro)
+                return False
+            return True
+
+        def check(name, call, inrange, offset_rule, linear_rule=None, rng_text=''):
+            site = f'generators.{name}'
+            a, repro = draw_twice(name, call, same_bqm)
+            if not on_graph(a, site, 'declared graph', repro + f'assert list(a.variables) == {list(gn)!r} and {{frozenset((u, v)) for u, v, _ in a.iter_quadratic()}} == {{frozenset(e) for e in {ge!r}}}\n'):
                 return
             lin, quad, off = coef(a)
             if not all(inrange(q) for q in quad.values()) or not all((linear_rule or inrange)(x) for x in lin.values()) or not offset_rule(off):
-                ctx.fail('property', site, 'declared range', f'seed {seed} graph {graph!r}: {lin} {quad} {off}', repro=repro)
-        lo, hi = sorted((F(r.randint(-8, 8), 2), F(r.randint(-8, 8), 2)))
+                ctx.fail('property', site, 'declared range', f'{call} seed {seed_src} graph {graph!r}: {lin} {quad} {off}', repro=repro + rng_text)
+        lo, hi = sorted((F(q.randint(-8, 8), 2), F(q.randint(-8, 8), 2)))
         if lo == hi:
             hi += 1
-        check('uniform', lambda: G.uniform(graph, vt, low=float(lo), high=float(hi), seed=seed), lambda x: lo <= x <= hi, lambda x: lo <= x <= hi)
-        ilo = r.randint(-5, 3); ihi = ilo + r.randint(0, 6)
+        check('uniform', f'G.uniform(graph, vt, low={float(lo)!r}, high={float(hi)!r}, seed=seed)', lambda x: lo <= x <= hi, lambda x: lo <= x <= hi,
+              rng_text=f'assert all({float(lo)!r} <= x <= {float(hi)!r} for x in list(a.linear.values()) + list(a.quadratic.values()) + [a.offset])\n')
+        ilo = q.randint(-5, 3); ihi = ilo + (q.randint(4, 6) if special else q.randint(0, 6))
         isint = lambda x: x.denominator == 1 and ilo <= x <= ihi   # noqa: E731
-        check('randint', lambda: G.randint(graph, vt, low=ilo, high=ihi, seed=seed), isint, isint)
-        rr = r.randint(1, 5)
+        check('randint', f'G.randint(graph, vt, low={ilo}, high={ihi}, seed=seed)', isint, isint,
+              rng_text=f'assert all(x == int(x) and {ilo} <= x <= {ihi} for x in list(a.linear.values()) + list(a.quadratic.values()) + [a.offset])\n')
+        rr = q.randint(3, 5) if special else q.randint(1, 5)
         inr = lambda x: x.denominator == 1 and 1 <= abs(x) <= rr   # noqa: E731
-        zero = lambda x: x == 0   # noqa: E731
-        for name, mk in (('ran_r', lambda: G.ran_r(rr, graph, seed=seed)), ('power_r', lambda: G.power_r(rr, graph, seed=seed))):
-            check(name, mk, inr, zero, zero)
-        p = r.choice([0, .25, .5, 1])
+        iszero = lambda x: x == 0   # noqa: E731
+        for name in ('ran_r', 'power_r'):
+            check(name, f'G.{name}({rr}, graph, seed=seed)', inr, iszero, iszero,
+                  rng_text=f'assert all(x == int(x) and 1 <= abs(x) <= {rr} for x in a.quadratic.values()) and not any(a.linear.values()) and a.offset == 0\n')
+        p = .5 if special else q.choice([0, .25, .5, 1])
         # doped builds its variables from the edges only
-        with warnings.catch_warnings():
-            warnings.simplefilter('ignore')
-            a = G.doped(p, graph, seed=seed); b2 = G.doped(p, graph, seed=seed)
-        ctx.tick('random:doped'); ctx.case(('random', 'doped', seed, repr(graph)), nontrivial=bool(ge))
+        a, repro = draw_twice('doped', f'G.doped({p!r}, graph, seed=seed)', same_bqm)
         lin, quad, off = coef(a)
-        if not same_bqm(a, b2):
-            ctx.fail('property', 'generators.doped', 'seed reproducibility', f'seed {seed}', repro=None)
         if ({frozenset(k) for k in quad} != {frozenset(e) for e in ge} or any(abs(q) != 1 for q in quad.values()) or any(lin.values()) or off != 0
                 or a.vartype.name != 'SPIN' or (p in (0, 1) and any(q != (1 if p == 1 else -1) for q in quad.values()))):
-            ctx.fail('property', 'generators.doped', 'declared range', f'seed {seed} p={p} graph {graph!r}: {lin} {quad} {off}', repro=None)
+            ctx.fail('property', 'generators.doped', 'declared range', f'seed {seed_src} p={p} graph {graph!r}: {lin} {quad} {off}',
+                     repro=repro + f'assert {{frozenset(k) for k in a.quadratic}} == {{frozenset(e) for e in {ge!r}}} and all(abs(q) == 1 for q in a.quadratic.values()) and not any(a.linear.values()) and a.offset == 0 and a.vartype is dimod.SPIN\n')
         # gnm / gnp
-        m = r.randint(0, 8)
-        with warnings.catch_warnings():
-            warnings.simplefilter('ignore')
-            a = G.gnm_random_bqm(nodes, m, vt, random_state=seed); b2 = G.gnm_random_bqm(nodes, m, vt, random_state=seed)
-        ctx.tick('random:gnm'); ctx.case(('random', 'gnm', seed, n, m), nontrivial=True)
+        m = q.randint(5, 8) if special else q.randint(0, 8)
+        a, repro = draw_twice('gnm_random_bqm', f'G.gnm_random_bqm(nodes, {m}, vt, random_state=seed)', same_bqm)
         lin, quad, off = coef(a)
-        if not same_bqm(a, b2):
-            ctx.fail('property', 'generators.gnm_random_bqm', 'seed reproducibility', f'seed {seed}', repro=None)
         if (list(a.variables) != nodes or len(quad) != min(m, n * (n - 1) // 2) or not all(0 <= x < 1 for x in list(lin.values()) + list(quad.values()) + [off])):
-            ctx.fail('property', 'generators.gnm_random_bqm', 'declared size / range', f'seed {seed} n={n} m={m}: {len(quad)} interactions', repro=None)
-        pp = r.choice([0, .3, .7, 1])
-        with warnings.catch_warnings():
-            warnings.simplefilter('ignore')
-            a = G.gnp_random_bqm(nodes, pp, vt, random_state=seed); b2 = G.gnp_random_bqm(nodes, pp, vt, random_state=seed)
-        ctx.tick('random:gnp'); ctx.case(('random', 'gnp', seed, n, pp), nontrivial=True)
+            ctx.fail('property', 'generators.gnm_random_bqm', 'declared size / range', f'seed {seed_src} n={n} m={m}: {len(quad)} interactions',
+                     repro=repro + f'assert list(a.variables) == nodes and a.num_interactions == {min(m, n * (n - 1) // 2)} and all(0 <= x < 1 for x in list(a.linear.values()) + list(a.quadratic.values()) + [a.offset])\n')
+        pp = q.choice([.3, .7]) if special else q.choice([0, .3, .7, 1])
+        a, repro = draw_twice('gnp_random_bqm', f'G.gnp_random_bqm(nodes, {pp!r}, vt, random_state=seed)', same_bqm)
         lin, quad, off = coef(a)
-        if not same_bqm(a, b2):
-            ctx.fail('property', 'generators.gnp_random_bqm', 'seed reproducibility', f'seed {seed}', repro=None)
         if (list(a.variables) != nodes or (pp == 0 and quad) or (pp == 1 and len(quad) != n * (n - 1) // 2)
                 or not all(0 <= x < 1 for x in list(lin.values()) + list(quad.values()) + [off])):
-            ctx.fail('property', 'generators.gnp_random_bqm', 'declared size / range', f'seed {seed} n={n} p={pp}', repro=None)
+            ctx.fail('property', 'generators.gnp_random_bqm', 'declared size / range', f'seed {seed_src} n={n} p={pp}',
+                     repro=repro + 'assert list(a.variables) == nodes and all(0 <= x < 1 for x in list(a.linear.values()) + list(a.quadratic.values()) + [a.offset])\n')
         # random CQM generators: ranges of the drawn data, reproducibility
-        ni = r.randint(1, 5)
-        vr = (r.randint(1, 10), r.randint(11, 40)); wr = (r.randint(1, 10), r.randint(11, 40))
-        a = G.random_knapsack(ni, seed=seed, value_range=vr, weight_range=wr); b2 = G.random_knapsack(ni, seed=seed, value_range=vr, weight_range=wr)
-        ctx.tick('random:knapsack'); ctx.case(('random', 'knapsack', seed, ni), nontrivial=True)
+        ni = q.randint(3, 5) if special else q.randint(1, 5)
+        vr = (q.randint(1, 10), q.randint(11, 40)); wr = (q.randint(1, 10), q.randint(11, 40))
+        same_cqm = lambda x, y: x.is_equal(y)   # noqa: E731
+        a, repro = draw_twice('random_knapsack', f'G.random_knapsack({ni}, seed=seed, value_range={vr!r}, weight_range={wr!r})', same_cqm)
         vals = [-fr(a.objective.get_linear(f'x_{i}')) for i in range(ni)]
         ws = [fr(a.constraints['capacity'].lhs.get_linear(f'x_{i}')) for i in range(ni)]
-        if not a.is_equal(b2):
-            ctx.fail('property', 'generators.random_knapsack', 'seed reproducibility', f'seed {seed}', repro=None)
         if not all(vr[0] <= v <= vr[1] for v in vals) or not all(wr[0] <= w <= wr[1] for w in ws):
-            ctx.fail('property', 'generators.random_knapsack', 'declared range', f'seed {seed}: values {vals} weights {ws}', repro=None)
-        nb = r.randint(1, 3)
-        a = G.random_multi_knapsack(ni, nb, seed=seed, value_range=vr, weight_range=wr); b2 = G.random_multi_knapsack(ni, nb, seed=seed, value_range=vr, weight_range=wr)
-        ctx.tick('random:multi_knapsack'); ctx.case(('random', 'multi_knapsack', seed, ni, nb), nontrivial=True)
+            ctx.fail('property', 'generators.random_knapsack', 'declared range', f'seed {seed_src}: values {vals} weights {ws}',
+                     repro=repro + f'assert all({vr[0]} <= -a.objective.get_linear(f"x_{{i}}") <= {vr[1]} and {wr[0]} <= a.constraints["capacity"].lhs.get_linear(f"x_{{i}}") <= {wr[1]} for i in range({ni}))\n')
+        nb = q.randint(1, 3)
+        a, repro = draw_twice('random_multi_knapsack', f'G.random_multi_knapsack({ni}, {nb}, seed=seed, value_range={vr!r}, weight_range={wr!r})', same_cqm)
         vals = [-fr(a.objective.get_linear(f'x_{i}_0')) for i in range(ni)]
         ws = [fr(a.constraints['capacity_bin_0'].lhs.get_linear(f'x_{i}_0')) for i in range(ni)]
-        if not a.is_equal(b2):
-            ctx.fail('property', 'generators.random_multi_knapsack', 'seed reproducibility', f'seed {seed}', repro=None)
         if not all(vr[0] <= v <= vr[1] for v in vals) or not all(wr[0] <= w <= wr[1] for w in ws):
-            ctx.fail('property', 'generators.random_multi_knapsack', 'declared range', f'seed {seed}: values {vals} weights {ws}', repro=None)
-        a = G.random_bin_packing(ni, seed=seed, weight_range=wr); b2 = G.random_bin_packing(ni, seed=seed, weight_range=wr)
-        ctx.tick('random:bin_packing'); ctx.case(('random', 'bin_packing', seed, ni), nontrivial=True)
+            ctx.fail('property', 'generators.random_multi_knapsack', 'declared range', f'seed {seed_src}: values {vals} weights {ws}',
+                     repro=repro + f'assert all({vr[0]} <= -a.objective.get_linear(f"x_{{i}}_0") <= {vr[1]} and {wr[0]} <= a.constraints["capacity_bin_0"].lhs.get_linear(f"x_{{i}}_0") <= {wr[1]} for i in range({ni}))\n')
+        a, repro = draw_twice('random_bin_packing', f'G.random_bin_packing({ni}, seed=seed, weight_range={wr!r})', same_cqm)
         ws = [fr(a.constraints['capacity_bin_0'].lhs.get_linear(f'x_{i}_0')) for i in range(ni)]
-        if not a.is_equal(b2):
-            ctx.fail('property', 'generators.random_bin_packing', 'seed reproducibility', f'seed {seed}', repro=None)
         if not all(wr[0] <= w <= wr[1] for w in ws):
-            ctx.fail('property', 'generators.random_bin_packing', 'declared range', f'seed {seed}: weights {ws}', repro=None)
+            ctx.fail('property', 'generators.random_bin_packing', 'declared range', f'seed {seed_src}: weights {ws}',
+                     repro=repro + f'assert all({wr[0]} <= a.constraints["capacity_bin_0"].lhs.get_linear(f"x_{{i}}_0") <= {wr[1]} for i in range({ni}))\n')
 
 
 def run(ctx):
     r = ctx.rng
     ctx.rule = ('every gate generator with random labels (ints, strings, nested tuples) / strengths, both vartypes, every row of the truth table x every auxiliary value; '
                 'multiplication circuits by full enumeration; combinations / independent-set family / knapsack family on random small instances at every assignment; '
-                'random generators over random seeds (ranges, graph, reproducibility). A case = one generator call; non-trivial = it returned a model with at least one term')
+                'random generators over random seeds and the seeds 0, np.int64(0), np.uint32(0), 1, 2**32-1 on a complete 7-node graph (ranges, graph, two calls with one seed agree, 0 and np.int64(0) agree). A case = one generator call; non-trivial = it returned a model with at least one term')
     lines, checks = [], []
     gate_cases(ctx, r, lines, checks)
     mult_cases(ctx, r, lines, checks)
